@@ -451,6 +451,73 @@ example : (bowyerWatson id [((0 : ℚ), (0 : ℚ)), (4, 0), (0, 3)]).isSome = tr
 
 end Field
 
+/-! ### adequacy of the super-triangle -/
+section Field
+variable {K : Type} [Field K] [LinearOrder K] [IsStrictOrderedRing K]
+
+theorem minOf_le_of_mem (x : K) (xs : List K) : ∀ v ∈ xs, minOf x xs ≤ v := by
+  induction xs generalizing x with
+  | nil => intro v hv; simp at hv
+  | cons w ws ih =>
+    intro v hv
+    have e : minOf x (w :: ws) = minOf (if w < x then w else x) ws := by simp [minOf]
+    rw [e]
+    rcases List.mem_cons.mp hv with rfl | hv
+    · refine le_trans (minOf_le _ _) ?_
+      split <;> [exact le_rfl; exact not_lt.mp ‹_›]
+    · exact ih _ v hv
+
+theorem le_maxOf_of_mem (x : K) (xs : List K) : ∀ v ∈ xs, v ≤ maxOf x xs := by
+  induction xs generalizing x with
+  | nil => intro v hv; simp at hv
+  | cons w ws ih =>
+    intro v hv
+    have e : maxOf x (w :: ws) = maxOf (if x < w then w else x) ws := by simp [maxOf]
+    rw [e]
+    rcases List.mem_cons.mp hv with rfl | hv
+    · refine le_trans ?_ (le_maxOf _ _)
+      split <;> [exact le_rfl; exact not_lt.mp ‹_›]
+    · exact ih _ v hv
+
+/-- adequacy of the (fixed) super-triangle: every point of the bounding box is strictly inside it -/
+theorem superTriangle_contains_box (minX maxX minY maxY qx qy : K) (hw : minX < maxX)
+    (h1 : minX ≤ qx) (h2 : qx ≤ maxX) (h3 : minY ≤ qy) (h4 : qy ≤ maxY) :
+    let xm := (minX + maxX) / 2
+    let l : Pt K := (xm - (maxX - minX) * 20, minY - 2)
+    let t : Pt K := (xm, maxY + (maxY - minY) * 20 + 2)
+    let r : Pt K := (xm + (maxX - minX) * 20, minY - 2)
+    orient l t (qx, qy) < 0 ∧ orient t r (qx, qy) < 0 ∧ orient r l (qx, qy) < 0 := by
+  intro xm l t r
+  simp only [orient, xm, l, t, r]
+  have hh : minY ≤ maxY := le_trans h3 h4
+  refine ⟨?_, ?_, ?_⟩
+  · nlinarith [mul_nonneg (sub_nonneg.mpr hw.le) (sub_nonneg.mpr hh), mul_nonneg (sub_nonneg.mpr hw.le) (sub_nonneg.mpr h4),
+      mul_nonneg (sub_nonneg.mpr h1) (sub_nonneg.mpr hh), mul_nonneg (sub_nonneg.mpr hw.le) (sub_nonneg.mpr h3)]
+  · nlinarith [mul_nonneg (sub_nonneg.mpr hw.le) (sub_nonneg.mpr hh), mul_nonneg (sub_nonneg.mpr hw.le) (sub_nonneg.mpr h4),
+      mul_nonneg (sub_nonneg.mpr h2) (sub_nonneg.mpr hh), mul_nonneg (sub_nonneg.mpr hw.le) (sub_nonneg.mpr h3)]
+  · nlinarith [mul_nonneg (sub_nonneg.mpr hw.le) (sub_nonneg.mpr h3)]
+
+
+/-- **superTriangle_contains**: with positive width, every input point lies strictly inside the
+    (clockwise) super-triangle — the adequacy that the pre-731df05 construction lacked -/
+theorem superTriangle_contains (p : Pt K) (ps : List (Pt K))
+    (hw : minOf p.1 (ps.map (·.1)) < maxOf p.1 (ps.map (·.1))) :
+    ∃ l t r, superTriangle p ps = [l, t, r] ∧
+      ∀ q ∈ p :: ps, orient l t q < 0 ∧ orient t r q < 0 ∧ orient r l q < 0 := by
+  refine ⟨_, _, _, rfl, ?_⟩
+  intro q hq
+  have b : minOf p.1 (ps.map (·.1)) ≤ q.1 ∧ q.1 ≤ maxOf p.1 (ps.map (·.1)) ∧
+      minOf p.2 (ps.map (·.2)) ≤ q.2 ∧ q.2 ≤ maxOf p.2 (ps.map (·.2)) := by
+    rcases List.mem_cons.mp hq with rfl | hq
+    · exact ⟨minOf_le _ _, le_maxOf _ _, minOf_le _ _, le_maxOf _ _⟩
+    · exact ⟨minOf_le_of_mem _ _ _ (List.mem_map_of_mem hq), le_maxOf_of_mem _ _ _ (List.mem_map_of_mem hq),
+        minOf_le_of_mem _ _ _ (List.mem_map_of_mem hq), le_maxOf_of_mem _ _ _ (List.mem_map_of_mem hq)⟩
+  have := superTriangle_contains_box _ _ _ _ q.1 q.2 hw b.1 b.2.1 b.2.2.1 b.2.2.2
+  push_cast
+  exact this
+
+end Field
+
 /-! ### order of map enumeration, the combined checker, and the full statement (NOT a theorem) -/
 
 section Full
